@@ -6,18 +6,18 @@ wt=/tmp/wt_$prop; out=$wt/_out
 cd /verif
 [ -f $out/$x.patch ] || { echo "no $out/$x.patch"; exit 3; }
 git -C $wt checkout -q -- src
-run() { (cd $wt && PYTHONPATH=$wt/src timeout 600 /venv/bin/python _out/${x}_demo.py >/tmp/seed_demo.log 2>&1); echo $?; }
+run() { (cd $wt && PYTHONPATH=$wt/src timeout 600 /venv/bin/python _out/${x}_demo.py >/tmp/seed_demo_$prop.log 2>&1); echo $?; }
 clean_rc=$(run)
 git -C $wt apply --whitespace=nowarn $out/$x.patch || { echo "PATCH DOES NOT APPLY"; exit 3; }
-mut_rc=$(run); demo_tail=$(tail -3 /tmp/seed_demo.log | tr '\n' ' ' | cut -c1-300)
+mut_rc=$(run); demo_tail=$(tail -3 /tmp/seed_demo_$prop.log | tr '\n' ' ' | cut -c1-300)
 suite=$(cd $wt && PYTHONPATH=$wt/src /venv/bin/python -m pytest -q -p no:cacheprovider --timeout=900 --deselect tests/dec/test_dec.py::test_particle_property_definitions --deselect tests/test_convert.py::test_full_convert 2>&1 | tail -1)
 results=""
 for p in $prop $extra; do
-  o=$(VERIF_REPO=$wt VERIF_EVIDENCE_DIR=/tmp/seed_ev VERIF_REPLAY_DIR=/tmp/seed_rp timeout 1500 ./check $p --tier quick 2>&1); rc=$?
+  o=$(VERIF_REPO=$wt VERIF_EVIDENCE_DIR=/tmp/seed_ev_$prop VERIF_REPLAY_DIR=/tmp/seed_rp_$prop timeout 1500 ./check $p --tier quick 2>&1); rc=$?
   sig=$(echo "$o" | grep -m1 -A1 '^VIOLATION' | tail -1 | sed 's/^ *//' | cut -c1-120)
   if [ $rc -eq 1 ]; then results="$results $p:DETECTED($sig)"; elif [ $rc -eq 0 ]; then results="$results $p:MISSED"; else results="$results $p:ERROR($rc)"; fi
 done
-git -C $wt checkout -q -- src; rm -rf /tmp/seed_ev /tmp/seed_rp
+git -C $wt checkout -q -- src; rm -rf /tmp/seed_ev_$prop /tmp/seed_rp_$prop
 echo "$prop/$x: demo clean rc=$clean_rc, with change rc=$mut_rc; suite: $suite; checks:$results"
 d=seeded/${prop}_${SEED_TAG:-}$x; mkdir -p $d
 cp $out/$x.patch $d/patch.diff; cp $out/${x}_demo.py $d/demo.py; cp $out/${x}_notes.txt $d/notes.txt 2>/dev/null
